@@ -112,7 +112,13 @@ def _run(args, core, pid, tier, seed):
             for v in ck.violations:
                 print('REPLAYED-VIOLATION property=%s %s :: %s' % (pid, v['sig'], v['what']))
             return 1 if ck.violations else 0
-        mod.run(ck)
+        try:
+            mod.run(ck)
+        except core.AbortRun:
+            # the verdict is settled and workers are still busy (fail-fast / a job that never returns): write it and end
+            # the process without waiting for them
+            code = core.finish(ck)
+            core.hard_exit(code, os.environ.get('TMPDIR') if os.environ.get('TMPDIR', '').startswith('/tmp/vf_') else None)
         return core.finish(ck)
     except core.HarnessError as e:
         r = _library_raised(core, locals().get('ck'), pid, str(e))
